@@ -10,9 +10,12 @@ import atexit
 import codecs
 import itertools
 import os
+import posixpath
 import shutil
 import tempfile
 import time
+
+import jinja2
 
 import common
 from common import Check, sx
@@ -57,8 +60,12 @@ codecs.register(_hook_search)
 
 # ----------------------------------------------------------------------------- template contents
 def src(content):
-    """model content -> Jinja source"""
-    items, export = content
+    """model content -> Jinja source (str), or bytes for a file that is not valid UTF-8"""
+    if len(content) > 2 and content[2] == 1:
+        return "{% if %}this does not compile " + content[1]          # TemplateSyntaxError
+    if len(content) > 2 and content[2] == 2:
+        return b"\xff\xfe\xfa not utf-8 " + content[1].encode()      # UnicodeDecodeError
+    items, export = content[:2]
     out = []
     for n, (kind, s) in enumerate(items):
         if kind == 0:
@@ -87,6 +94,8 @@ def main_content(k, variant=None):
 # include / import names with "." and ".." at the start, in the MIDDLE and at several places
 DOTTED_NAMES = ["inc.txt", "sub/../inc.txt", "x/../inc.txt", "./sub/../inc.txt", "sub/./inc.txt", "../sub/../inc.txt",
                 "sub/../sub/inc.txt", "a/b/../../inc.txt", "../inc.txt", "./inc.txt", "sub/../../inc.txt", "nosuch/../nosuch.txt"]
+DOTTED_NAMES += ["..meta/inc.txt", "../..meta/inc.txt", ".hidden.txt", "...txt", "./..meta/inc.txt", "..meta/../inc.txt",
+                 "../../nosuch.txt", "../../../../../../nosuch.txt"]
 DOTTED_IMPORTS = ["lib.txt", "x/../lib.txt", "./lib.txt", "sub/../lib.txt"]
 
 
@@ -108,7 +117,12 @@ def leaf_content(tag):
 SETUP = [("sub/main.txt", main_content(0)), ("inc.txt", inc_content("I", 0)), ("sub/inc.txt", inc_content("J", 0)),
          ("lib.txt", lib_content("L", 0)), ("sub/lib.txt", lib_content("K", 0)),
          ("leaf.txt", leaf_content("leaf")), ("sub/leaf.txt", leaf_content("subleaf")),
-         ("main.txt", ([(0, "R["), (1, "a"), (1, "z"), (0, "]"), (2, "inc.txt"), (3, "sub/lib.txt")], ""))]
+         ("main.txt", ([(0, "R["), (1, "a"), (1, "z"), (0, "]"), (2, "inc.txt"), (3, "sub/lib.txt")], "")),
+         # directories and files whose names merely BEGIN with dots (Kubernetes ..data, dot files)
+         ("..meta/inc.txt", ([(0, "<..meta>")], "")), ("sub/..meta/inc.txt", ([(0, "<sub/..meta>")], "")),
+         ("sub/.hidden.txt", ([(0, "<hidden>")], "")), ("sub/...txt", ([(0, "<three dots>")], "")),
+         # a top-level template in the directory that is the process's working directory in the "cwdsub" cases
+         ("w/top.txt", ([(0, "T["), (1, "a"), (0, "]"), (2, "../inc.txt"), (0, "|"), (3, "../lib.txt")], "XT"))]
 
 # history alphabet: (code, description)
 ALPHA = ["Em", "Ei", "Ej", "El", "Ek", "Di", "Dj", "R", "Rr"]
@@ -117,6 +131,8 @@ ALPHA = ["Em", "Ei", "Ej", "El", "Ek", "Di", "Dj", "R", "Rr"]
 #             load of that very file (after its bytes were read); only possible with the engine's own loader
 #   Sm Sj Si Sk Sl  same-size rewrite IN PLACE of sub/main, sub/inc, inc, sub/lib, lib with the mtime restored (ctime moves)
 #   Nm Nj     same-size rewrite through a NEW inode (os.replace) with the mtime restored
+#   Zm Zj Zi Zk / Ym Yj Yi Yk  edit sub/main, sub/inc, inc, sub/lib to content with a syntax error / that is not UTF-8
+#   Rt        render w/top.txt (the working directory is w/ in the "cwdsub" cases); Rc render the top of an include chain
 #   Br Bc Bd Bx Ba Be  a SECOND engine is constructed that differs in relative_includes / cache_enabled / root_dir / context /
 #             python allow-list / encoding and stays alive; Ub renders two templates with it
 ADV = ["Lm", "Lj", "Li", "Sm", "Sj", "Si", "Sk", "Sl", "Nm", "Nj"]
@@ -125,13 +141,13 @@ OP_PATH = {"m": "sub/main.txt", "j": "sub/inc.txt", "i": "inc.txt", "k": "sub/li
 
 def same_size_variant(content):
     """toggle the case of the first letter of the first text item and of the export value"""
-    items, export = content
+    items, export = content[:2]
     items = list(items)
     for n, (kind, t) in enumerate(items):
         if kind == 0 and t:
             items[n] = (0, t[0].swapcase() + t[1:])
             break
-    return (items, export[:1].swapcase() + export[1:])
+    return (items, export[:1].swapcase() + export[1:]) + tuple(content[2:])
 
 
 def interpret(c, engine):
@@ -158,7 +174,17 @@ def interpret(c, engine):
             cur[hook[0]] = hook[1]
 
     for p, ct in SETUP:
+        if p == "w/top.txt" and c.get("top_variant"):
+            ct = ([(0, "T["), (1, "a"), (0, "]"), (c["top_variant"][1], c["top_variant"][0]), (0, "|"), (3, c["top_variant"][2])], "XT")
         edit(p, main_content(0, c["main_variant"]) if (p == "sub/main.txt" and c.get("main_variant")) else ct)
+    if c.get("chain"):
+        # a chain of includes of the given depth through files with long names
+        depth, pad = c["chain"]
+        names = ["chain/c%02d_%s.txt" % (i, "n" * pad) for i in range(depth)]
+        for i, nm in enumerate(names):
+            nxt = [(2, posixpath.basename(names[i + 1]))] if i + 1 < depth else [(0, "<end>")]
+            edit(nm, ([(0, "%d," % i)] + nxt, ""))
+        c["chain_top"] = names[0]
     ed = itertools.count(1)
     for h in c["history"]:
         k = next(ed)
@@ -180,6 +206,12 @@ def interpret(c, engine):
             engine.other(h[1])
         elif h == "Ub":                              # ... and used
             engine.use_other()
+        elif h[0] in "ZY" and len(h) == 2:           # edit to content that does not compile (Z syntax error, Y not UTF-8)
+            edit(OP_PATH[h[1]], ([], "broken%d" % k, 1 if h[0] == "Z" else 2))
+        elif h == "Rt":
+            render("w/top.txt", [("a", "ta%d" % k)])
+        elif h == "Rc":
+            render(c["chain_top"], [("a", "x")])
         elif h in ("Xi", "Xj"):                      # the include file is replaced by a DIRECTORY of that name
             edit("inc.txt" if h == "Xi" else "sub/inc.txt", None, "directory")
         elif h == "R":
@@ -198,10 +230,15 @@ def interpret(c, engine):
 
 
 # ----------------------------------------------------------------------------- real engine
+def src_bytes(content):
+    t = src(content)
+    return t if isinstance(t, bytes) else t.encode("utf-8")
+
+
 def write_file(path, text):
     os.makedirs(os.path.dirname(path), exist_ok=True)
-    with open(path, "w") as f:
-        f.write(text)
+    with open(path, "wb") as f:
+        f.write(text if isinstance(text, bytes) else text.encode("utf-8"))
     _clock[0] += 3
     t = _clock[0] * 1_000_000_000 + 1234567
     os.utime(path, ns=(t, t))           # every edit changes mtime (and with it the stat version)
@@ -266,7 +303,7 @@ class RealEngine:
             write_file(p, src(content))
         else:
             st = os.stat(p)
-            data = src(content).encode("utf-8")
+            data = src_bytes(content)
             assert len(data) == st.st_size, "same-size variant changed the size"
             time.sleep(0.012)                       # a coarse ctime clock must have moved since the last change
             if mode == "inplace":
@@ -280,10 +317,15 @@ class RealEngine:
 
     def render(self, rel, ctx, hook):
         c = self.c
-        name = rel if (c["root"] or c["relname"]) else os.path.join(self.T, rel)
+        if c["root"]:
+            name = rel
+        elif c["relname"]:
+            name = os.path.relpath(os.path.join(self.T, rel), os.getcwd())       # may climb above the working directory
+        else:
+            name = os.path.join(self.T, rel)
         if hook is not None and hook[1] is not None and not c["root"]:
             target, old, new = hook
-            _HOOK.update(expect=src(old).encode("utf-8"), fired=False,
+            _HOOK.update(expect=src_bytes(old), fired=False,
                          action=lambda: write_file(os.path.join(self.T, target), src(new)))
         try:
             try:
@@ -294,6 +336,10 @@ class RealEngine:
                 res = (2,)
             except RecursionError:
                 res = (3,)
+            except jinja2.TemplateSyntaxError:
+                res = (4, 1)
+            except UnicodeDecodeError:
+                res = (4, 2)
             except Exception as ex:          # noqa
                 res = (0, ("!exception:" + type(ex).__name__).encode())
         finally:
@@ -308,7 +354,8 @@ def run_engine(c):
         shutil.rmtree(os.path.join(T, name), ignore_errors=True) if os.path.isdir(os.path.join(T, name)) \
             else os.unlink(os.path.join(T, name))
     old = os.getcwd()
-    os.chdir(T)
+    os.makedirs(os.path.join(T, "w"), exist_ok=True)
+    os.chdir(os.path.join(T, "w") if c.get("cwdsub") else T)
     try:
         results, steps = interpret(c, RealEngine(c, T))
         return {"results": results, "steps": steps}
@@ -402,7 +449,7 @@ def python_oracles(keys):
 
 
 ENTRIES = ["os", "osx", "os.path", "o", "os.", "os.*", "*", ".*", "o.*", "os.path.*", "", "\u00f6s", "\u00f6.*", "0", "None"]
-MODULES = ENTRIES + ["os.pathx", "os.path.sub", "x", "os..", "osx.y", "o.s", "os.*.x", "\u00f6.s", "\u00f6s.x", "0.x", "OS"]
+MODULES = ENTRIES + ["m" * 300, ".".join(["p"] * 40), "os." + "x" * 255, "os\t", " os", "os ", "os.pathx", "os.path.sub", "x", "os..", "osx.y", "o.s", "os.*.x", "\u00f6.s", "\u00f6s.x", "0.x", "OS"]
 REAL_MODULES = ["os", "os.path", "posixpath", "json", "json.decoder", "o" + "s"]
 
 
@@ -476,6 +523,28 @@ class C17(Check):
         for root, cache, rel in self.configs():
             for h in (["R", "Xj", "R", "Ej", "R"], ["R", "Xi", "R", "Ei", "R"], ["Xj", "R"]):
                 yield {"kind": 0, "root": root, "cache": cache, "rel": rel, "base": [], "relname": False, "history": h}
+        # an edit to content that does not compile (syntax error / not UTF-8): every render raises like a fresh engine's
+        # until the file is repaired - the old compiled template must never come back
+        for root, cache, rel in self.configs():
+            for x in "mjik":
+                e = "E" + x
+                for h in (["R", "Z" + x, "R", "R"], ["R", "Z" + x, "R", e, "R", "R"], ["Z" + x, "R", "R"],
+                          ["R", "Rr", "Y" + x, "R", "Rr", "R", e, "R"], ["R", "Z" + x, "R", "Y" + x, "R", "R"]):
+                    n += 1
+                    yield {"kind": 0, "root": root, "cache": cache, "rel": rel, "base": [], "relname": (n % 4 == 0), "history": h}
+        # the working directory is a sub-directory: relative top-level names and includes that climb ABOVE it
+        for cache in (True, False):
+            for rel in (True, False):
+                for tv in (("../inc.txt", 2, "../lib.txt"), ("../sub/inc.txt", 2, "../sub/../lib.txt"), ("../../nosuch.txt", 4, "../lib.txt"),
+                           ("../..meta/inc.txt", 2, "../lib.txt"), ("../sub/..meta/inc.txt", 4, "../sub/lib.txt"), ("top.txt/../../inc.txt", 2, "../lib.txt")):
+                    yield {"kind": 0, "root": False, "cache": cache, "rel": rel, "base": [], "relname": True, "cwdsub": True,
+                           "top_variant": tv, "history": ["Rt", "R", "Ei", "Rt", "Rr"]}
+                yield {"kind": 0, "root": True, "cache": cache, "rel": rel, "base": [], "relname": False, "cwdsub": True,
+                       "top_variant": ("../inc.txt", 2, "../lib.txt"), "history": ["Rt", "Ei", "Rt"]}
+        # natural limits a hardening might pick: include chains of depth 17 and 40, file names of 200+ characters
+        for root, cache, rel in self.configs():
+            for chain in ((17, 10), (40, 200)) if tier != "quick" or (root, cache) in ((False, True), (True, True)) else ((17, 200),):
+                yield {"kind": 0, "root": root, "cache": cache, "rel": rel, "base": [], "relname": False, "chain": chain, "history": ["Rc", "Rc"]}
         # two live engines: a second engine that differs in one per-engine setting is constructed (and used) between
         # renders of the first; the first engine's renders are those of its own history (C17_engines_independent)
         for root, cache, rel in self.configs():
@@ -562,12 +631,15 @@ class C17(Check):
             steps = []
             for st in obs["steps"]:
                 if st[0] == "edit":
-                    ct = [] if st[2] is None else [[[[k, s.encode()] for k, s in st[2][0]], st[2][1].encode()]]
+                    ct = [] if st[2] is None else [[[[k, s.encode()] for k, s in st[2][0]], st[2][1].encode()] + list(st[2][2:])]
                     steps.append([0, P(st[1]), ct, bool(st[3])])
                 else:
-                    name = st[1].encode() if (c["root"] or c["relname"]) else P(st[1])
+                    mcwd = ROOT + ("/w" if c.get("cwdsub") else "")
+                    name = st[1].encode() if c["root"] else (
+                        posixpath.relpath(ROOT + "/" + st[1], mcwd).encode() if c["relname"] else P(st[1]))
                     steps.append([1, name, [[k.encode(), str(v).encode()] for k, v in st[2]]])
-            cfg = [[ROOT.encode()] if c["root"] else [], bool(c["cache"]), bool(c["rel"]), ROOT.encode(), False,
+            cfg = [[ROOT.encode()] if c["root"] else [], bool(c["cache"]), bool(c["rel"]),
+                   (ROOT + ("/w" if c.get("cwdsub") else "")).encode(), False,
                    [[k.encode(), str(v).encode()] for k, v in c["base"]]]      # a value is what {{ key }} renders: str(v)
             return sx([0, cfg, steps, self.canon(obs)])
         if c["kind"] == 2:
@@ -598,7 +670,8 @@ class C17(Check):
         if c["kind"] == 0:
             return {"root_dir": c["root"], "cache_enabled": c["cache"], "relative_includes": c["rel"],
                     "config_context": repr(c["base"]), "caller_context": repr(c.get("caller")), "relative_template_name": c["relname"],
-                    "history": c["history"],
+                    "history": c["history"], "working_directory_is_w/": bool(c.get("cwdsub")),
+                    "w/top.txt(include name, kind, import name)": c.get("top_variant"), "include_chain(depth, name padding)": c.get("chain"),
                     "sub/main.txt(include name, 2=include 4=ignore missing, import name)": c.get("main_variant"),
                     "legend": "setup writes 8 files; Em/Ei/Ej/El/Ek edit sub/main, inc, sub/inc, lib, sub/lib; Di/Dj delete "
                               "inc, sub/inc; R renders sub/main.txt, Rr renders main.txt",
